@@ -1,73 +1,905 @@
+// Harness for C36 — bookmark export/import round trip (pkg/pdfcpu/bookmark.go, pkg/api/bookmark.go).
+//
+// K (correspondence with coq/C36/Model.v):
+//
+//	roundtrip  forest -> api.ImportBookmarks (JSON, replace) on a generated PDF -> api.ExportBookmarksJSON
+//	build      forest -> pdfcpu.AddBookmarks on an in-memory context -> dump of the outline object graph
+//	read       arbitrary/corrupted outline graph injected into a context -> pdfcpu.Bookmarks
+//
+// O (property evaluated on the implementation):
+//
+//	export(import(f)) == f for every accepted forest with export-normal titles;
+//	export -> import -> export is the identity on the exported JSON (literal property);
+//	export terminates on corrupted outlines (in memory and through raw PDF files).
 package main
 
 import (
 	"bytes"
 	"encoding/json"
+	"errors"
 	"fmt"
+	"math"
 	"strings"
+	"time"
+
+	"verif/vh"
 
 	"github.com/pdfcpu/pdfcpu/pkg/api"
 	"github.com/pdfcpu/pdfcpu/pkg/pdfcpu"
 	"github.com/pdfcpu/pdfcpu/pkg/pdfcpu/color"
+	"github.com/pdfcpu/pdfcpu/pkg/pdfcpu/model"
+	"github.com/pdfcpu/pdfcpu/pkg/pdfcpu/types"
 )
 
-func makePDF(k int) []byte {
+// ---------------------------------------------------------------- PDF generation
+
+type rawObj struct {
+	nr   int
+	body string
+}
+
+// makePDF returns a k-page PDF: 1 catalog, 2 page tree, page i = object 3+2(i-1), contents 4+2(i-1).
+// extra objects (numbered from 3+2k) are appended; catalogExtra goes into the catalog dict.
+func makePDF(k int, catalogExtra string, extra []rawObj) []byte {
 	var b bytes.Buffer
-	offs := []int{}
-	obj := func(s string) {
-		offs = append(offs, b.Len())
-		fmt.Fprintf(&b, "%d 0 obj\n%s\nendobj\n", len(offs), s)
+	offs := map[int]int{}
+	max := 0
+	obj := func(nr int, s string) {
+		offs[nr] = b.Len()
+		if nr > max {
+			max = nr
+		}
+		fmt.Fprintf(&b, "%d 0 obj\n%s\nendobj\n", nr, s)
 	}
 	b.WriteString("%PDF-1.4\n")
-	obj("<< /Type /Catalog /Pages 2 0 R >>")
+	obj(1, "<< /Type /Catalog /Pages 2 0 R "+catalogExtra+" >>")
 	kids := make([]string, k)
 	for i := 0; i < k; i++ {
 		kids[i] = fmt.Sprintf("%d 0 R", 3+2*i)
 	}
-	obj(fmt.Sprintf("<< /Type /Pages /Kids [%s] /Count %d >>", strings.Join(kids, " "), k))
+	obj(2, fmt.Sprintf("<< /Type /Pages /Kids [%s] /Count %d >>", strings.Join(kids, " "), k))
 	for i := 0; i < k; i++ {
-		obj(fmt.Sprintf("<< /Type /Page /Parent 2 0 R /MediaBox [0 0 %d 300] /Resources << >> /Contents %d 0 R >>", 200+i%5, 4+2*i))
+		obj(3+2*i, fmt.Sprintf("<< /Type /Page /Parent 2 0 R /MediaBox [0 0 %d 300] /Resources << >> /Contents %d 0 R >>", 200+i%5, 4+2*i))
 		content := fmt.Sprintf("0 0 m %d 100 l S", 10+i)
-		obj(fmt.Sprintf("<< /Length %d >>\nstream\n%s\nendstream", len(content), content))
+		obj(4+2*i, fmt.Sprintf("<< /Length %d >>\nstream\n%s\nendstream", len(content), content))
+	}
+	for _, o := range extra {
+		obj(o.nr, o.body)
 	}
 	x := b.Len()
-	fmt.Fprintf(&b, "xref\n0 %d\n0000000000 65535 f \n", len(offs)+1)
-	for _, o := range offs {
-		fmt.Fprintf(&b, "%010d 00000 n \n", o)
+	fmt.Fprintf(&b, "xref\n0 %d\n0000000000 65535 f \n", max+1)
+	for i := 1; i <= max; i++ {
+		if o, ok := offs[i]; ok {
+			fmt.Fprintf(&b, "%010d 00000 n \n", o)
+		} else {
+			fmt.Fprintf(&b, "%010d 65535 f \n", 0)
+		}
 	}
-	fmt.Fprintf(&b, "trailer\n<< /Size %d /Root 1 0 R >>\nstartxref\n%d\n%%%%EOF\n", len(offs)+1, x)
+	fmt.Fprintf(&b, "trailer\n<< /Size %d /Root 1 0 R >>\nstartxref\n%d\n%%%%EOF\n", max+1, x)
 	return b.Bytes()
 }
 
-func rt(bms []pdfcpu.Bookmark, pages int) {
-	tree := pdfcpu.BookmarkTree{Bookmarks: bms}
-	js, _ := json.Marshal(tree)
-	var out bytes.Buffer
-	err := api.ImportBookmarks(bytes.NewReader(makePDF(pages)), bytes.NewReader(js), &out, true, nil)
-	if err != nil {
-		fmt.Println("import err:", err)
-		return
+// ---------------------------------------------------------------- wire format
+
+func colStr(c *color.SimpleColor) string {
+	if c == nil {
+		return "-"
 	}
+	return fmt.Sprintf("%x,%x,%x", math.Float32bits(c.R), math.Float32bits(c.G), math.Float32bits(c.B))
+}
+
+func titleStr(s string) string {
+	if s == "" {
+		return "-"
+	}
+	return vh.Hex([]byte(s))
+}
+
+func forestStr(bms []pdfcpu.Bookmark) string {
+	var sb strings.Builder
+	var rec func(l []pdfcpu.Bookmark)
+	rec = func(l []pdfcpu.Bookmark) {
+		if len(l) == 0 {
+			sb.WriteString(".")
+			return
+		}
+		b := l[0]
+		fmt.Fprintf(&sb, "N %s %s %d %s ", titleStr(b.Title), vh.Int(int64(b.PageFrom)), b.Style(), colStr(b.Color))
+		rec(b.Kids)
+		sb.WriteString(" ")
+		rec(l[1:])
+	}
+	rec(bms)
+	return sb.String()
+}
+
+func guard(f func() string) (s string) {
+	defer func() {
+		if p := recover(); p != nil {
+			s = fmt.Sprintf("PANIC:%v", p)
+		}
+	}()
+	return f()
+}
+
+// withTimeout runs f; ok=false if it did not return within d.
+func withTimeout(d time.Duration, f func() string) (string, bool) {
+	ch := make(chan string, 1)
+	go func() { ch <- guard(f) }()
+	select {
+	case s := <-ch:
+		return s, true
+	case <-time.After(d):
+		return "", false
+	}
+}
+
+// ---------------------------------------------------------------- implementation under test
+
+func importErrClass(err error) string {
+	switch {
+	case errors.Is(err, pdfcpu.ErrInvalidBookmark):
+		return "imperr:invalid"
+	case errors.Is(err, model.ErrMaxRecursionDepthExceeded):
+		return "imperr:depth"
+	case strings.Contains(err.Error(), "page dict: page not found"):
+		return "imperr:page"
+	}
+	return "imperr:other:" + vh.Hex([]byte(err.Error()))
+}
+
+func exportErrClass(err error) string {
+	switch {
+	case errors.Is(err, pdfcpu.ErrCircularBookmarks):
+		return "rerr:cycle"
+	case errors.Is(err, model.ErrMaxRecursionDepthExceeded):
+		return "rerr:depth"
+	case errors.Is(err, model.ErrExpectedDict):
+		return "rerr:deref"
+	case strings.Contains(err.Error(), "first kid: expected indirect reference"):
+		return "rerr:first"
+	case strings.Contains(err.Error(), "destination"):
+		return "rerr:dest"
+	}
+	return "rerr:other:" + vh.Hex([]byte(err.Error()))
+}
+
+func exportJSON(pdf []byte) ([]pdfcpu.Bookmark, []byte, error) {
 	var ex bytes.Buffer
-	err = api.ExportBookmarksJSON(bytes.NewReader(out.Bytes()), &ex, "x.pdf", nil)
+	err := api.ExportBookmarksJSON(bytes.NewReader(pdf), &ex, "x.pdf", nil)
 	if err != nil {
-		fmt.Println("export err:", err)
+		if errors.Is(err, api.ErrNoBookmarks) {
+			return nil, nil, nil
+		}
+		return nil, nil, err
+	}
+	var t pdfcpu.BookmarkTree
+	if err := json.Unmarshal(ex.Bytes(), &t); err != nil {
+		return nil, nil, err
+	}
+	return t.Bookmarks, ex.Bytes(), nil
+}
+
+// implRoundtrip: JSON -> ImportBookmarks(replace) -> ExportBookmarksJSON.
+func implRoundtrip(pc int, js []byte) (res string, out []pdfcpu.Bookmark, pdf []byte) {
+	var w bytes.Buffer
+	err := api.ImportBookmarks(bytes.NewReader(makePDF(pc, "", nil)), bytes.NewReader(js), &w, true, nil)
+	if err != nil {
+		return importErrClass(err), nil, nil
+	}
+	bms, _, err := exportJSON(w.Bytes())
+	if err != nil {
+		return exportErrClass(err), nil, w.Bytes()
+	}
+	return "ok " + forestStr(bms), bms, w.Bytes()
+}
+
+// ---------------------------------------------------------------- forest generation
+
+var titlePool = []string{"A", "A", "B", "0", "C", "Ä", "日本語", "😀 x", "(par\\en)", "A b", "Kapitel 1", "é", "Z", "a", "~", "A!", " "}
+
+func genTitle(r *vh.Run, mode int) string {
+	switch x := r.Rand.Intn(20); {
+	case x < 12:
+		return titlePool[r.Rand.Intn(len(titlePool))]
+	case x < 14:
+		return titlePool[r.Rand.Intn(4)]
+	case x < 17:
+		// random unicode
+		n := 1 + r.Rand.Intn(8)
+		rs := make([]rune, n)
+		for i := range rs {
+			switch r.Rand.Intn(4) {
+			case 0:
+				rs[i] = rune(0x20 + r.Rand.Intn(0x5f))
+			case 1:
+				rs[i] = rune(0xa0 + r.Rand.Intn(0x200))
+			case 2:
+				rs[i] = rune(0x4e00 + r.Rand.Intn(0x1000))
+			default:
+				rs[i] = rune(0x1f600 + r.Rand.Intn(0x40))
+			}
+		}
+		return string(rs)
+	case x < 19 || mode == 0:
+		return titlePool[r.Rand.Intn(len(titlePool))] + fmt.Sprint(r.Rand.Intn(30))
+	default:
+		// not in export-normal form: control bytes
+		return []string{"a\x01b", "\x02", "\tT\n", "A\x01", "x\x1f"}[r.Rand.Intn(5)]
+	}
+}
+
+var colPool = []float32{0, 1, 0.5, 0.25, 0.75, 0.3, 0.1, 0.125, 0.9, 0.333}
+
+// genForest: mode 0 = valid and export-normal, 1 = may contain control bytes in titles,
+// 2 = may contain invalid pages / ordering.
+func genForest(r *vh.Run, pc, depth, maxDepth, mode int, minPage int) []pdfcpu.Bookmark {
+	n := 1 + r.Rand.Intn(6)
+	if depth > 0 {
+		n = 1 + r.Rand.Intn(4)
+	}
+	if depth >= 3 {
+		n = 1 + r.Rand.Intn(2)
+	}
+	var out []pdfcpu.Bookmark
+	page := minPage
+	for i := 0; i < n; i++ {
+		if r.Rand.Intn(2) == 0 && page < pc {
+			page += r.Rand.Intn(pc - page + 1)
+		}
+		b := pdfcpu.Bookmark{Title: genTitle(r, mode), PageFrom: page}
+		if mode == 2 && r.Rand.Intn(12) == 0 {
+			b.PageFrom = []int{0, -1, pc + 1, page - 1, 1}[r.Rand.Intn(5)]
+		}
+		if r.Rand.Intn(4) == 0 {
+			b.Bold = true
+		}
+		if r.Rand.Intn(4) == 0 {
+			b.Italic = true
+		}
+		if r.Rand.Intn(3) == 0 {
+			c := color.SimpleColor{R: colPool[r.Rand.Intn(len(colPool))], G: colPool[r.Rand.Intn(len(colPool))], B: colPool[r.Rand.Intn(len(colPool))]}
+			b.Color = &c
+		}
+		if depth+1 < maxDepth && r.Rand.Intn(3) == 0 {
+			mp := b.PageFrom
+			if mp < 1 {
+				mp = 1
+			}
+			if mp > pc {
+				mp = pc
+			}
+			b.Kids = genForest(r, pc, depth+1, maxDepth, mode, mp)
+		}
+		out = append(out, b)
+	}
+	return out
+}
+
+func clean(bms []pdfcpu.Bookmark) bool {
+	for _, b := range bms {
+		if b.Title == "" {
+			return false
+		}
+		for i := 0; i < len(b.Title); i++ {
+			if b.Title[i] < 32 {
+				return false
+			}
+		}
+		if !clean(b.Kids) {
+			return false
+		}
+	}
+	return true
+}
+
+func titles(bms []pdfcpu.Bookmark, m map[string]int) {
+	for _, b := range bms {
+		m[b.Title]++
+		titles(b.Kids, m)
+	}
+}
+
+func countNodes(bms []pdfcpu.Bookmark) int {
+	n := 0
+	for _, b := range bms {
+		n += 1 + countNodes(b.Kids)
+	}
+	return n
+}
+
+// sameButPages: the two forests agree in everything except target pages.
+func sameButPages(a, b []pdfcpu.Bookmark) bool {
+	if len(a) != len(b) {
+		return false
+	}
+	for i := range a {
+		x, y := a[i], b[i]
+		if x.Title != y.Title || x.Bold != y.Bold || x.Italic != y.Italic || colStr(x.Color) != colStr(y.Color) || !sameButPages(x.Kids, y.Kids) {
+			return false
+		}
+	}
+	return true
+}
+
+func mismatchClass(in, out []pdfcpu.Bookmark) string {
+	m := map[string]int{}
+	titles(in, m)
+	dup := false
+	for _, c := range m {
+		if c > 1 {
+			dup = true
+		}
+	}
+	if dup && sameButPages(in, out) {
+		// a bookmark with a duplicate title exports with the page of another bookmark of that title
+		return "dup-title-wrong-page"
+	}
+	return "roundtrip-mismatch"
+}
+
+func oneRoundtrip(r *vh.Run, pc int, bms []pdfcpu.Bookmark, tag string) {
+	js, err := json.Marshal(pdfcpu.BookmarkTree{Bookmarks: bms})
+	if err != nil {
+		panic(err)
+	}
+	in := forestStr(bms)
+	var out []pdfcpu.Bookmark
+	var pdf []byte
+	res := guard(func() string {
+		var s string
+		s, out, pdf = implRoundtrip(pc, js)
+		return s
+	})
+	r.Case("roundtrip", []string{vh.Int(int64(pc)), in}, res)
+	r.Count("roundtrip:" + tag)
+	r.Count(fmt.Sprintf("roundtrip-nodes:%d", (countNodes(bms)+4)/5*5))
+	if strings.HasPrefix(res, "PANIC") {
+		r.OracleFail("panic-import-export", map[string]any{"pages": pc, "json": string(js)}, res)
 		return
 	}
-	var t2 pdfcpu.BookmarkTree
-	json.Unmarshal(ex.Bytes(), &t2)
-	j2, _ := json.Marshal(t2.Bookmarks)
-	j1, _ := json.Marshal(bms)
-	fmt.Println("IN ", string(j1))
-	fmt.Println("OUT", string(j2))
+	if !strings.HasPrefix(res, "ok ") {
+		r.Count("roundtrip-result:" + strings.SplitN(res, ":", 3)[0] + ":" + strings.SplitN(res+"::", ":", 3)[1])
+		if clean(bms) && strings.HasPrefix(res, "rerr") {
+			// import accepted the forest but the result cannot be exported
+			r.OracleFail("imported-not-exportable", map[string]any{"pages": pc, "json": string(js)}, res)
+		}
+		return
+	}
+	r.Count("roundtrip-result:ok")
+	if !clean(bms) {
+		return // first export normalises; covered by the second-round check below
+	}
+	// O1: export(import(f)) == f
+	if res == "ok "+in {
+		r.OracleOK()
+	} else {
+		r.OracleFail(mismatchClass(bms, out), map[string]any{"pages": pc, "json": string(js)}, "in="+in+" out="+res[3:])
+	}
+	_ = pdf
+}
+
+// literal property: export E1 of a document, import E1 into a document with the same pages, export
+// again: E2 == E1.  The document is produced by a first import of arbitrary (also non-normal) titles.
+func exportImportExport(r *vh.Run, pc int, bms []pdfcpu.Bookmark) {
+	js, _ := json.Marshal(pdfcpu.BookmarkTree{Bookmarks: bms})
+	var w bytes.Buffer
+	if err := api.ImportBookmarks(bytes.NewReader(makePDF(pc, "", nil)), bytes.NewReader(js), &w, true, nil); err != nil {
+		r.Count("eie:first-import-rejected")
+		return
+	}
+	e1, j1, err := exportJSON(w.Bytes())
+	if err != nil || len(e1) == 0 {
+		r.Count("eie:first-export-empty-or-error")
+		return
+	}
+	// import the exported JSON as is (header included) into the document that already has bookmarks (replace)
+	var w2 bytes.Buffer
+	if err := api.ImportBookmarks(bytes.NewReader(w.Bytes()), bytes.NewReader(j1), &w2, true, nil); err != nil {
+		r.OracleFail("export-not-reimportable", map[string]any{"pages": pc, "json": string(js)}, vh.Hex([]byte(err.Error())))
+		return
+	}
+	e2, _, err := exportJSON(w2.Bytes())
+	if err != nil {
+		r.OracleFail("imported-not-exportable", map[string]any{"pages": pc, "json": string(js)}, vh.Hex([]byte(err.Error())))
+		return
+	}
+	r.Count("eie:checked")
+	if forestStr(e1) == forestStr(e2) {
+		r.OracleOK()
+	} else {
+		r.OracleFail(mismatchClass(e1, e2), map[string]any{"pages": pc, "json": string(js), "stage": "export-import-export"}, "e1="+forestStr(e1)+" e2="+forestStr(e2))
+	}
+}
+
+// ---------------------------------------------------------------- build: outline graph after AddBookmarks
+
+func optRef(d types.Dict, key string, base int) string {
+	ir := d.IndirectRefEntry(key)
+	if ir == nil {
+		return "-"
+	}
+	return fmt.Sprint(ir.ObjectNumber.Value() - base)
+}
+
+func buildDump(pc int, bms []pdfcpu.Bookmark) string {
+	ctx, err := api.ReadValidateAndOptimize(bytes.NewReader(makePDF(pc, "", nil)), model.NewDefaultConfiguration())
+	if err != nil {
+		return "ctxerr"
+	}
+	if err := pdfcpu.AddBookmarks(ctx, bms, true); err != nil {
+		return importErrClass(err)
+	}
+	root, err := ctx.Catalog()
+	if err != nil {
+		return "ctxerr"
+	}
+	oir := root.IndirectRefEntry("Outlines")
+	if oir == nil {
+		return "no-outlines"
+	}
+	base := oir.ObjectNumber.Value()
+	od, err := ctx.DereferenceDict(*oir)
+	if err != nil {
+		return "ctxerr"
+	}
+	parts := []string{"first=" + optRef(od, "First", base)}
+	for nr := base + 1; ; nr++ {
+		e, ok := ctx.FindTableEntryLight(nr)
+		if !ok || e == nil || e.Free || e.Object == nil {
+			break
+		}
+		switch o := e.Object.(type) {
+		case types.Array:
+			p := -1
+			if len(o) == 2 {
+				if ir, ok := o[0].(types.IndirectRef); ok && o[1] == types.Name("Fit") {
+					p, _ = ctx.PageNumber(ir.ObjectNumber.Value())
+				}
+			}
+			parts = append(parts, fmt.Sprintf("D %d %s", nr-base, vh.Int(int64(p))))
+		case types.Dict:
+			t := "-"
+			if s, err := model.Text(o["Title"]); err == nil {
+				t = "t" + vh.Hex([]byte(s))
+			}
+			dest := "-"
+			if hl, ok := o["Dest"].(types.HexLiteral); ok {
+				if bb, err := hl.Bytes(); err == nil {
+					dest = "n" + vh.Hex(bb)
+				}
+			}
+			cnt := "-"
+			if c := o.IntEntry("Count"); c != nil {
+				cnt = vh.Int(int64(*c))
+			}
+			col := "-"
+			if arr := o.ArrayEntry("C"); len(arr) == 3 {
+				c := color.NewSimpleColorForArray(arr)
+				col = colStr(&c)
+			}
+			fl := "-"
+			if f := o.IntEntry("F"); f != nil {
+				fl = vh.Int(int64(*f))
+			}
+			parts = append(parts, fmt.Sprintf("I %d %s %s %s %s %s %s %s %s %s %s", nr-base, t, dest,
+				optRef(o, "First", base), optRef(o, "Last", base), optRef(o, "Next", base), optRef(o, "Prev", base),
+				optRef(o, "Parent", base), cnt, col, fl))
+		default:
+			parts = append(parts, fmt.Sprintf("? %d %T", nr-base, o))
+		}
+	}
+	return strings.Join(parts, ";")
+}
+
+// ---------------------------------------------------------------- read: arbitrary outline graphs
+
+type gItem struct {
+	id     int
+	isDest bool // a destination array object instead of an item dict
+	page   int
+	title  *string
+	dest   string // "-", "n<name>", "p<page>" (page ref for 1..pc, integer otherwise)
+	first  string // "-", "r<id>", "b"
+	next   int    // 0 = none
+	col    *color.SimpleColor
+	flags  *int
+}
+
+func (g gItem) wire() string {
+	if g.isDest {
+		return fmt.Sprintf("D %x %s", g.id, vh.Int(int64(g.page)))
+	}
+	t := "-"
+	if g.title != nil {
+		t = "t" + vh.Hex([]byte(*g.title))
+	}
+	d := g.dest
+	if strings.HasPrefix(d, "n") {
+		d = "n" + vh.Hex([]byte(d[1:]))
+	}
+	nx := "-"
+	if g.next != 0 {
+		nx = fmt.Sprintf("%x", g.next)
+	}
+	fl := "-"
+	if g.flags != nil {
+		fl = vh.Int(int64(*g.flags))
+	}
+	return fmt.Sprintf("I %x %s %s %s %s %s %s", g.id, t, d, g.first, nx, colStr(g.col), fl)
+}
+
+// object body for the in-memory context
+func (g gItem) object(ctx *model.Context, pc int) types.Object {
+	pageDest := func(p int) types.Array {
+		if p >= 1 && p <= pc {
+			_, ir, _, err := ctx.PageDict(p, false)
+			if err == nil && ir != nil {
+				return types.Array{*ir, types.Name("Fit")}
+			}
+		}
+		return types.Array{types.Integer(p), types.Name("Fit")}
+	}
+	if g.isDest {
+		return pageDest(g.page)
+	}
+	d := types.Dict{}
+	if g.title != nil {
+		s, err := types.EscapedUTF16String(*g.title)
+		if err != nil {
+			panic(err)
+		}
+		d["Title"] = types.StringLiteral(*s)
+	}
+	switch {
+	case strings.HasPrefix(g.dest, "n"):
+		d["Dest"] = types.NewHexLiteral([]byte(g.dest[1:]))
+	case strings.HasPrefix(g.dest, "p"):
+		var p int64
+		fmt.Sscanf(strings.TrimPrefix(g.dest[1:], "-"), "%x", &p)
+		if strings.HasPrefix(g.dest[1:], "-") {
+			p = -p
+		}
+		d["Dest"] = pageDest(int(p))
+	}
+	switch {
+	case g.first == "b":
+		d["First"] = types.Integer(7)
+	case strings.HasPrefix(g.first, "r"):
+		var id int
+		fmt.Sscanf(g.first[1:], "%x", &id)
+		d["First"] = *types.NewIndirectRef(id, 0)
+	}
+	if g.next != 0 {
+		d["Next"] = *types.NewIndirectRef(g.next, 0)
+	}
+	if g.col != nil {
+		d["C"] = types.Array{types.Float(g.col.R), types.Float(g.col.G), types.Float(g.col.B)}
+	}
+	if g.flags != nil {
+		d["F"] = types.Integer(*g.flags)
+	}
+	return d
+}
+
+// raw PDF body of the same object
+func (g gItem) raw(pc int) string {
+	pageDest := func(p int) string {
+		if p >= 1 && p <= pc {
+			return fmt.Sprintf("[%d 0 R /Fit]", 3+2*(p-1))
+		}
+		return fmt.Sprintf("[%d /Fit]", p)
+	}
+	if g.isDest {
+		return pageDest(g.page)
+	}
+	var sb strings.Builder
+	sb.WriteString("<<")
+	if g.title != nil {
+		sb.WriteString(" /Title <FEFF")
+		for _, u := range utf16be(*g.title) {
+			fmt.Fprintf(&sb, "%04X", u)
+		}
+		sb.WriteString(">")
+	}
+	switch {
+	case strings.HasPrefix(g.dest, "n"):
+		fmt.Fprintf(&sb, " /Dest <%s>", vh.Hex([]byte(g.dest[1:])))
+	case strings.HasPrefix(g.dest, "p"):
+		var p int64
+		fmt.Sscanf(strings.TrimPrefix(g.dest[1:], "-"), "%x", &p)
+		if strings.HasPrefix(g.dest[1:], "-") {
+			p = -p
+		}
+		sb.WriteString(" /Dest " + pageDest(int(p)))
+	}
+	switch {
+	case g.first == "b":
+		sb.WriteString(" /First 7")
+	case strings.HasPrefix(g.first, "r"):
+		var id int
+		fmt.Sscanf(g.first[1:], "%x", &id)
+		fmt.Fprintf(&sb, " /First %d 0 R", id)
+	}
+	if g.next != 0 {
+		fmt.Fprintf(&sb, " /Next %d 0 R", g.next)
+	}
+	if g.flags != nil {
+		fmt.Fprintf(&sb, " /F %d", *g.flags)
+	}
+	sb.WriteString(" >>")
+	return sb.String()
+}
+
+func utf16be(s string) []uint16 {
+	var out []uint16
+	for _, r := range s {
+		if r >= 0x10000 {
+			r -= 0x10000
+			out = append(out, uint16(0xd800+(r>>10)), uint16(0xdc00+(r&0x3ff)))
+		} else {
+			out = append(out, uint16(r))
+		}
+	}
+	return out
+}
+
+// genGraph: k objects numbered start+1..start+k (start = the /Outlines dict), links chosen at random
+// among them (so cycles, self references, shared kids and parents-as-kids all occur), plus dangling ones.
+func genGraph(r *vh.Run, pc, start int, shape int) (items []gItem, first int) {
+	k := 1 + r.Rand.Intn(7)
+	if shape == 3 {
+		k = 4 + r.Rand.Intn(10)
+	}
+	pick := func() int {
+		switch x := r.Rand.Intn(12); {
+		case x == 0:
+			return start + k + 40 // dangling
+		case x == 1:
+			return start // the outlines dict itself
+		default:
+			return start + 1 + r.Rand.Intn(k)
+		}
+	}
+	for i := 1; i <= k; i++ {
+		g := gItem{id: start + i, first: "-", dest: "-"}
+		if shape != 0 && r.Rand.Intn(10) == 0 {
+			g.isDest = true
+			g.page = 1 + r.Rand.Intn(pc)
+			items = append(items, g)
+			continue
+		}
+		if r.Rand.Intn(10) != 0 {
+			t := genTitle(r, 1)
+			if r.Rand.Intn(12) == 0 {
+				t = ""
+			}
+			g.title = &t
+		}
+		switch x := r.Rand.Intn(10); {
+		case x < 6:
+			g.dest = "p" + vh.Int(int64(1+r.Rand.Intn(pc)))
+		case x == 6:
+			g.dest = "p" + vh.Int(int64([]int{0, -3, 77}[r.Rand.Intn(3)]))
+		case x == 7:
+			g.dest = "n" + genTitle(r, 0)
+		case x == 8 && shape != 0:
+			g.dest = "-"
+		default:
+			g.dest = "p1"
+		}
+		switch shape {
+		case 0: // a proper tree laid out as a chain with occasional kids: i -> next i+1, handled below
+		default:
+			if r.Rand.Intn(3) == 0 {
+				g.first = fmt.Sprintf("r%x", pick())
+			} else if r.Rand.Intn(25) == 0 {
+				g.first = "b"
+			}
+			if r.Rand.Intn(2) == 0 {
+				g.next = pick()
+			}
+		}
+		if r.Rand.Intn(4) == 0 {
+			f := []int{0, 1, 2, 3, 4, 7, -1}[r.Rand.Intn(7)]
+			g.flags = &f
+		}
+		if r.Rand.Intn(5) == 0 {
+			c := color.SimpleColor{R: colPool[r.Rand.Intn(len(colPool))], G: 0.5, B: 1}
+			g.col = &c
+		}
+		items = append(items, g)
+	}
+	if shape == 0 {
+		// well-formed: a random forest over the k items in preorder
+		var lay func(lo, hi int)
+		lay = func(lo, hi int) { // items[lo..hi) form a sibling list with nested kids
+			for lo < hi {
+				end := lo + 1
+				if end < hi && r.Rand.Intn(2) == 0 {
+					end = lo + 1 + r.Rand.Intn(hi-lo)
+					if end > lo+1 {
+						items[lo].first = fmt.Sprintf("r%x", items[lo+1].id)
+						lay(lo+1, end)
+					}
+				}
+				if end < hi {
+					items[lo].next = items[end].id
+				}
+				lo = end
+			}
+		}
+		lay(0, k)
+	}
+	if shape == 2 {
+		// deep chain through /First to hit the recursion limit
+		for i := 0; i+1 < k; i++ {
+			items[i].first = fmt.Sprintf("r%x", items[i+1].id)
+		}
+	}
+	first = start + 1
+	if shape != 0 && r.Rand.Intn(10) == 0 {
+		first = pick()
+	}
+	return items, first
+}
+
+func graphWire(items []gItem) string {
+	if len(items) == 0 {
+		return "-"
+	}
+	s := make([]string, len(items))
+	for i, g := range items {
+		s[i] = g.wire()
+	}
+	return strings.Join(s, ";")
+}
+
+func implRead(pc, maxd int, items []gItem, first int) string {
+	conf := model.NewDefaultConfiguration()
+	ctx, err := api.ReadValidateAndOptimize(bytes.NewReader(makePDF(pc, "", nil)), conf)
+	if err != nil {
+		return "ctxerr"
+	}
+	ctx.XRefTable.Conf.Limits.MaxRecursionDepth = maxd
+	od := types.Dict{"Type": types.Name("Outlines"), "First": *types.NewIndirectRef(first, 0)}
+	oir, err := ctx.IndRefForNewObject(od)
+	if err != nil || oir.ObjectNumber.Value() != 3+2*pc {
+		return fmt.Sprintf("ctxerr:outlines-nr")
+	}
+	for _, g := range items {
+		ir, err := ctx.IndRefForNewObject(g.object(ctx, pc))
+		if err != nil || ir.ObjectNumber.Value() != g.id {
+			return "ctxerr:item-nr"
+		}
+	}
+	ctx.Outlines = od
+	bms, err := pdfcpu.Bookmarks(ctx)
+	if err != nil {
+		return exportErrClass(err)
+	}
+	return "ok " + forestStr(bms)
+}
+
+func readCases(r *vh.Run) {
+	n := r.Pick(700, 12000)
+	for i := 0; i < n; i++ {
+		pc := 1 + r.Rand.Intn(5)
+		start := 3 + 2*pc
+		shape := []int{0, 1, 1, 1, 2, 3}[r.Rand.Intn(6)]
+		items, first := genGraph(r, pc, start, shape)
+		maxd := 100
+		if shape == 2 || r.Rand.Intn(4) == 0 {
+			maxd = 1 + r.Rand.Intn(4)
+		}
+		res, ok := withTimeout(20*time.Second, func() string { return implRead(pc, maxd, items, first) })
+		in := map[string]any{"pages": pc, "maxdepth": maxd, "first": first, "graph": graphWire(items)}
+		if !ok {
+			r.OracleFail("export-hangs", in, "pdfcpu.Bookmarks did not return within 20s")
+			continue
+		}
+		r.Case("read", []string{vh.Int(int64(maxd)), fmt.Sprintf("%x", first), graphWire(items)}, res)
+		r.Count(fmt.Sprintf("read-shape:%d", shape))
+		r.Count("read-result:" + strings.SplitN(res, " ", 2)[0])
+		if strings.HasPrefix(res, "PANIC") {
+			r.OracleFail("panic-export", in, res)
+		} else {
+			r.OracleOK() // terminated with an error or a finite forest
+		}
+		// the same outline inside a raw PDF file, through the whole API (validation included)
+		if i%4 == 0 {
+			var extra []rawObj
+			extra = append(extra, rawObj{start, fmt.Sprintf("<< /Type /Outlines /First %d 0 R /Count %d >>", first, len(items))})
+			for _, g := range items {
+				extra = append(extra, rawObj{g.id, g.raw(pc)})
+			}
+			pdf := makePDF(pc, fmt.Sprintf("/Outlines %d 0 R", start), extra)
+			res, ok := withTimeout(30*time.Second, func() string {
+				bms, _, err := exportJSON(pdf)
+				if err != nil {
+					return "err"
+				}
+				return fmt.Sprintf("ok:%d", countNodes(bms))
+			})
+			if !ok {
+				r.OracleFail("export-hangs", map[string]any{"pdf": vh.Hex(pdf)}, "api.ExportBookmarksJSON did not return within 30s")
+				continue
+			}
+			r.Count("rawfile-result:" + strings.SplitN(res, ":", 2)[0])
+			if strings.HasPrefix(res, "PANIC") {
+				r.OracleFail("panic-export", map[string]any{"pdf": vh.Hex(pdf)}, res)
+			} else {
+				r.OracleOK()
+			}
+		}
+	}
+}
+
+// ---------------------------------------------------------------- fixed cases
+
+func fixedForests() [][]pdfcpu.Bookmark {
+	bk := func(t string, p int, kids ...pdfcpu.Bookmark) pdfcpu.Bookmark {
+		return pdfcpu.Bookmark{Title: t, PageFrom: p, Kids: kids}
+	}
+	c := color.SimpleColor{R: 0.3, G: 0.5, B: 1}
+	deep := bk("d", 1)
+	for i := 0; i < 6; i++ {
+		deep = bk(fmt.Sprintf("d%d", i), 1, deep)
+	}
+	return [][]pdfcpu.Bookmark{
+		{bk("A", 1), bk("A", 2), bk("B", 3), bk("0", 4), bk("A", 5)}, // the refuted witness of Property.v
+		{bk("A", 1), bk("A", 2), bk("A", 3), bk("A", 4), bk("A", 5), bk("A", 6)},
+		{bk("A", 1, bk("A", 1), bk("A", 2)), bk("A", 3)},
+		{{Title: "Ünï ♥ 😀 (x) \\ y", PageFrom: 1, Bold: true, Color: &c, Kids: []pdfcpu.Bookmark{{Title: "k", PageFrom: 1, Italic: true}, {Title: "k", PageFrom: 3}}}, bk("z", 2)},
+		{deep},
+		{bk("a", 1), bk("b", 2), bk("c", 3), bk("d", 4), bk("e", 5), bk("f", 6)},
+		{bk("f", 1), bk("e", 2), bk("d", 3), bk("c", 4), bk("b", 5), bk("a", 6)},
+		{bk("q", 2, bk("k", 1))},
+		{bk("q", 3), bk("k", 2)},
+		{bk("q", 0)},
+		{bk("q", 7)},
+		{bk("q", 6, bk("k", 6, bk("j", 6)))},
+	}
+}
+
+func deepChain(n int) []pdfcpu.Bookmark {
+	b := pdfcpu.Bookmark{Title: "leaf", PageFrom: 1}
+	for i := 0; i < n; i++ {
+		b = pdfcpu.Bookmark{Title: fmt.Sprintf("L%d", i), PageFrom: 1, Kids: []pdfcpu.Bookmark{b}}
+	}
+	return []pdfcpu.Bookmark{b}
 }
 
 func main() {
 	api.DisableConfigDir()
-	c := color.SimpleColor{R: 0.3, G: 0.5, B: 1}
-	rt([]pdfcpu.Bookmark{{Title: "A", PageFrom: 1}, {Title: "A", PageFrom: 2}, {Title: "B", PageFrom: 3}, {Title: "0", PageFrom: 4}, {Title: "A", PageFrom: 5}}, 6)
-	rt([]pdfcpu.Bookmark{{Title: "Ünï ♥ 😀 (x) \\ y", PageFrom: 1, Bold: true, Color: &c, Kids: []pdfcpu.Bookmark{{Title: "k", PageFrom: 1, Italic: true}, {Title: "k", PageFrom: 3}}}, {Title: "z", PageFrom: 2}}, 6)
-	rt([]pdfcpu.Bookmark{{Title: "a\x01b", PageFrom: 1}, {Title: "\x02", PageFrom: 2}, {Title: "", PageFrom: 2}, {Title: "q", PageFrom: 7}}, 6)
-	rt([]pdfcpu.Bookmark{{Title: "q", PageFrom: 0}}, 6)
-	rt([]pdfcpu.Bookmark{{Title: "q", PageFrom: 2, Kids: []pdfcpu.Bookmark{{Title: "k", PageFrom: 1}}}}, 6)
+	r := vh.Start("C36")
+	defer r.Finish()
+
+	for _, f := range fixedForests() {
+		oneRoundtrip(r, 6, f, "fixed")
+		r.Case("build", []string{vh.Int(6), forestStr(f)}, guard(func() string { return buildDump(6, f) }))
+		exportImportExport(r, 6, f)
+	}
+	// recursion limit of import (default 100): nesting 100 is accepted, 101 is not
+	for _, n := range []int{99, 100, 101} {
+		f := deepChain(n)
+		r.Case("build", []string{vh.Int(3), forestStr(f)}, guard(func() string { return buildDump(3, f) }))
+		oneRoundtrip(r, 3, f, "deep")
+	}
+
+	n := r.Pick(260, 6000)
+	for i := 0; i < n; i++ {
+		pc := 1 + r.Rand.Intn(8)
+		mode := []int{0, 0, 0, 1, 2}[r.Rand.Intn(5)]
+		maxDepth := 1 + r.Rand.Intn(5)
+		f := genForest(r, pc, 0, maxDepth, mode, 1)
+		oneRoundtrip(r, pc, f, fmt.Sprintf("mode%d", mode))
+		if i%2 == 0 {
+			r.Case("build", []string{vh.Int(int64(pc)), forestStr(f)}, guard(func() string { return buildDump(pc, f) }))
+		}
+		if i%3 == 0 {
+			exportImportExport(r, pc, f)
+		}
+	}
+	readCases(r)
 }
